@@ -19,7 +19,11 @@ RULE = "kernels of length 2-7 over the per-ISA vocabulary (register, flag, memor
 def units(tier):
     from .c16 import partition_unit
     from pyvc.runner import Unit as U_
-    return [U_("C14/check_for_loopcarried_dep/partition(kernels >= 50 lines)", partition_unit, "P", [(KDG, "KernelDG.check_for_loopcarried_dep")], decisive=False),
+    from .c03 import find_depending_unit
+    from .c16 import postprocess_unit
+    return [U_("C14/find_depending(dependence of a pair is a function of the instructions from producer to consumer)", find_depending_unit, "P", [(KDG, "KernelDG.find_depending")], decisive=False),
+            U_("C14/check_for_loopcarried_dep/post-processing(entries keyed by their sorted member list)", postprocess_unit, "P", [(KDG, "KernelDG.check_for_loopcarried_dep")], decisive=False),
+            U_("C14/check_for_loopcarried_dep/partition(kernels >= 50 lines)", partition_unit, "P", [(KDG, "KernelDG.check_for_loopcarried_dep")], decisive=False),
             bounded_unit("C14/parallel-search-equals-sequential", "c16_parallel", [(KDG, "KernelDG.check_for_loopcarried_dep")], timeout=1800),
             bounded_unit("C14/rotation-invariance", "dg_oracle", [(KDG, "KernelDG.check_for_loopcarried_dep"), (KDG, "KernelDG.create_DG")],
                          extra_args=["C14"], timeout=1800, decisive=True)]
